@@ -13,6 +13,26 @@ A_STD1 = 'A-STD1: AsRef<..>::as_ref of the argument types is a pure view'
 A_MEM = 'A-MEM: side conditions `rows * columns <= usize::MAX` / `length + C + 32 <= usize::MAX` (addressable memory) appear as preconditions'
 
 PROPS = {
+    'C10': {
+        'verus': ['rc'],
+        'kani': [{'name': 'k_c10_complement_involution', 'kind': 'Kinf'}],
+        'native': False,
+        'assumptions': [A_E1, A_T1, A_GA1, A_DENSE,
+                        'A-ABC2: ComplementableAlphabet::complement is a pure involution (discharged for Nucleotide by the complete Kani harness)',
+                        'A-D1: derived Clone of Background is field-wise',
+                        'commutation with count->frequency->score under a strand-symmetric background is NOT claimed: the row-sum term is a permuted f32 fold (needs commutativity/associativity of f32 add, A-F8)',
+                        'Python reverse_complement: C17 (not applicable)'],
+        'explanation': 'the four reverse_complement bodies satisfy out[i][k] == m[M-1-i][comp(k)]; lemma_rc_involution (rc twice = identity) and lemma_rc_strand (addend j of the rc score at L-M-i is addend M-1-j of the original score at i)',
+    },
+    'C09': {
+        'verus': ['counts'],
+        'kani': [],
+        'native': False,
+        'assumptions': [A_E1, A_T1, A_GA1, A_DENSE,
+                        'S1: the generic iterator parameter of from_sequences is instantiated at &Vec<EncodedSequence<A>>',
+                        'NOT under contract (iterator-adapter code that Verus cannot express, and float numerics): CountMatrix::to_freq, FrequencyMatrix::{new, to_weight, into_scoring}, WeightMatrix::{to_scoring_with_base, rescale}, ScoringMatrix::{min_score, max_score}, Background::{new, from_counts, from_sequence(s)} - so only the first clause of C09 (count matrix = occurrence counts; unequal lengths rejected) is decided'],
+        'explanation': 'CountMatrix::from_sequences on its verbatim body: Err iff some sequence length differs from the first; Ok(m) holds exactly the occurrence counts',
+    },
     'C05': {
         'verus': ['encode'],
         'kani': [{'name': 'k_c05_nucleotide_table', 'kind': 'Kinf'}, {'name': 'k_c05_aminoacid_table', 'kind': 'Kinf'},
